@@ -3,6 +3,7 @@ package rules
 import (
 	"fmt"
 	"go/ast"
+	"go/constant"
 	"go/token"
 	"go/types"
 	"sort"
@@ -141,8 +142,8 @@ type gateInfo struct {
 	markers  map[string]*Production
 	inl      []*inlProd
 
-	field        *types.Var // the gate: a slice field of the lexer
-	enter, leave *core.Func
+	cell         gateCell // the gate: a slice field of the lexer, or a named slice type its methods work on
+	enter, leave *core.Func // the functions that do the work (wrappers resolved)
 	dead         *core.Func
 	region       []*core.Func // hand-written functions reachable from the reduce actions
 	regionSet    map[*core.Func]bool
@@ -264,13 +265,15 @@ func (c *Ctx) gate() *gateInfo {
 			if f == nil || !g.regionSet[f] {
 				return true
 			}
-			if v := appendedField(f); v != nil {
-				g.enter, g.field = f, v
+			// `func (l *lexer) enter(live bool) { l.lazy.push(live) }`: the function that does the work
+			f = c.effective(f)
+			if v := appendedCell(f); v != nil {
+				g.enter, g.cell = f, *v
 			}
 			return true
 		})
 	}
-	if g.field == nil {
+	if g.cell.isZero() {
 		return g
 	}
 	for _, f := range c.funcsOfPkg("interp", false) {
@@ -283,22 +286,29 @@ func (c *Ctx) gate() *gateInfo {
 			switch n := n.(type) {
 			case *ast.AssignStmt:
 				for i, l := range n.Lhs {
-					if core.FieldOf(fi, l) == g.field {
+					if g.cell.is(fi, l) {
 						writes = true
 						if i < len(n.Rhs) {
-							if se, ok := ast.Unparen(n.Rhs[i]).(*ast.SliceExpr); ok && core.FieldOf(fi, se.X) == g.field {
+							if se, ok := ast.Unparen(n.Rhs[i]).(*ast.SliceExpr); ok && g.cell.is(fi, se.X) {
 								reslices = true
 							}
 						}
 					}
 				}
 			case *ast.SelectorExpr:
-				if core.FieldOf(fi, n) == g.field {
+				if g.cell.field != nil && g.cell.is(fi, n) {
+					reads = true
+				}
+			case *ast.Ident:
+				if g.cell.named != nil && g.cell.is(fi, n) {
 					reads = true
 				}
 			}
 			return true
 		})
+		if c.effective(f) != f {
+			continue // a wrapper; the function it hands over to is the one
+		}
 		sig := f.Obj.Type().(*types.Signature)
 		switch {
 		case writes && reslices && g.leave == nil:
@@ -315,23 +325,84 @@ func isBool(t types.Type) bool {
 	return ok && b.Info()&types.IsBoolean != 0
 }
 
-// appendedField returns the struct field f grows by `x.F = append(x.F, …)`.
-func appendedField(f *core.Func) *types.Var {
-	var out *types.Var
+// gateCell is where the gate lives: a slice field of a struct, or - when the
+// stack is a type of its own - the value its methods receive.
+type gateCell struct {
+	field *types.Var
+	named *types.Named
+}
+
+func (gc gateCell) isZero() bool { return gc.field == nil && gc.named == nil }
+
+func (gc gateCell) name() string {
+	if gc.field != nil {
+		return gc.field.Name()
+	}
+	if gc.named != nil {
+		return gc.named.Obj().Name()
+	}
+	return "?"
+}
+
+// is reports whether e denotes the gate.
+func (gc gateCell) is(info *types.Info, e ast.Expr) bool {
+	e = ast.Unparen(e)
+	if gc.field != nil {
+		return core.FieldOf(info, e) == gc.field
+	}
+	if gc.named == nil {
+		return false
+	}
+	if st, ok := e.(*ast.StarExpr); ok {
+		e = ast.Unparen(st.X)
+	}
+	t := info.TypeOf(e)
+	if t == nil {
+		return false
+	}
+	if p, ok := t.(*types.Pointer); ok {
+		t = p.Elem()
+	}
+	n, ok := t.(*types.Named)
+	return ok && n.Obj() == gc.named.Obj()
+}
+
+// appendedCell returns what f grows by `X = append(X, …)`: a struct field, or
+// the receiver of a method of a named slice type.
+func appendedCell(f *core.Func) *gateCell {
+	var out *gateCell
 	fi := f.Info()
 	f.OwnNodes(func(n ast.Node) bool {
 		as, ok := n.(*ast.AssignStmt)
-		if !ok || len(as.Lhs) != 1 || len(as.Rhs) != 1 {
+		if !ok || len(as.Lhs) != 1 || len(as.Rhs) != 1 || out != nil {
 			return true
 		}
-		v := core.FieldOf(fi, as.Lhs[0])
 		call, isCall := ast.Unparen(as.Rhs[0]).(*ast.CallExpr)
-		if v == nil || !isCall || len(call.Args) < 2 {
+		if !isCall || len(call.Args) < 2 {
 			return true
 		}
-		if id, ok := call.Fun.(*ast.Ident); ok && id.Name == "append" && core.FieldOf(fi, call.Args[0]) == v {
+		if id, ok := call.Fun.(*ast.Ident); !ok || id.Name != "append" || exprStr(ast.Unparen(call.Args[0])) != exprStr(ast.Unparen(as.Lhs[0])) {
+			return true
+		}
+		if v := core.FieldOf(fi, as.Lhs[0]); v != nil {
 			if _, isSlice := v.Type().Underlying().(*types.Slice); isSlice {
-				out = v
+				out = &gateCell{field: v}
+			}
+			return true
+		}
+		lhs := ast.Unparen(as.Lhs[0])
+		if st, ok := lhs.(*ast.StarExpr); ok {
+			lhs = ast.Unparen(st.X)
+		}
+		if id, ok := lhs.(*ast.Ident); ok && isRecv(f, fi.Uses[id]) {
+			t := fi.TypeOf(id)
+			if p, ok := t.(*types.Pointer); ok {
+				t = p.Elem()
+			}
+			if nm, ok := t.(*types.Named); ok {
+				if _, isSlice := nm.Underlying().(*types.Slice); isSlice {
+					out = &gateCell{named: nm}
+				}
 			}
 		}
 		return true
@@ -339,44 +410,98 @@ func appendedField(f *core.Func) *types.Var {
 	return out
 }
 
-// gateCalls lists, in source order, the calls of enter (+1) and leave (-1) in
-// a reduce action; ok is false when one of them is conditional.
-func (c *Ctx) gateCalls(g *gateInfo, cc *ast.CaseClause) (ops []int, calls []*ast.CallExpr, ok bool) {
-	ok = true
-	info := c.P.Pkgs["interp"].TypesInfo
-	ast.Inspect(cc, func(n ast.Node) bool {
-		call, isCall := n.(*ast.CallExpr)
-		if !isCall {
-			return true
+// gateWalk walks the action of p with the gate's functions as events and the
+// helpers that reach them inlined (cached).
+func (c *Ctx) gateWalk(g *gateInfo, p *Production) *actionWalk {
+	key := fmt.Sprintf("gateWalk:%d", p.N)
+	if v, ok := c.cache[key]; ok {
+		return v.(*actionWalk)
+	}
+	// helpers that (transitively) open or close the gate are followed; the rest -
+	// expand, calculate, store … - yield opaque results
+	reach := map[*core.Func]bool{}
+	for changed := true; changed; {
+		changed = false
+		for _, f := range g.region {
+			if reach[f] || f == g.enter || f == g.leave || f == g.dead {
+				continue
+			}
+			fi := f.Info()
+			f.OwnNodes(func(n ast.Node) bool {
+				if call, ok := n.(*ast.CallExpr); ok && !reach[f] {
+					if fo := core.StaticCallee(fi, call); fo != nil {
+						h := c.P.FuncOf(fo)
+						if e := c.effective(h); e != nil && (e == g.enter || e == g.leave || reach[h] || reach[e]) {
+							reach[f] = true
+							changed = true
+						}
+					}
+				}
+				return true
+			})
 		}
-		fo := core.StaticCallee(info, call)
-		if fo == nil {
-			return true
+	}
+	w := c.walkAction("interp", p, func(h *core.Func) string {
+		switch h {
+		case g.enter:
+			return "enter"
+		case g.leave:
+			return "leave"
+		case c.effective(c.fn("interp.expand")):
+			return "+expand"
 		}
-		f := c.P.FuncOf(fo)
-		if f == nil || (f != g.enter && f != g.leave) {
-			return true
+		return ""
+	}, func(h *core.Func) bool {
+		e := c.effective(h)
+		return reach[h] && e != g.enter && e != g.leave
+	})
+	c.cache[key] = w
+	return w
+}
+
+// gateEvents returns the openings and closings recorded on a path.
+func gateEvents(p *spath) []sevent {
+	var out []sevent
+	for _, ev := range p.events {
+		if ev.kind == "enter" || ev.kind == "leave" {
+			out = append(out, ev)
 		}
-		if f == g.enter {
-			ops = append(ops, +1)
-		} else {
-			ops = append(ops, -1)
-		}
-		calls = append(calls, call)
-		// unconditional: an expression statement of a block of the case, no test around it
-		for x := c.P.Parent(call); x != nil && x != ast.Node(cc); x = c.P.Parent(x) {
-			switch x.(type) {
-			case *ast.ExprStmt, *ast.BlockStmt:
-			default:
-				ok = false
+	}
+	return out
+}
+
+// gateCalls lists the openings (+1) and closings (-1) of the gate the action
+// of p performs; ok is false when the paths through the action (helpers
+// followed with the arguments they are handed) disagree, or the walk failed.
+func (c *Ctx) gateCalls(g *gateInfo, p *Production) (ops []int, ok bool) {
+	w := c.gateWalk(g, p)
+	if w.why != "" {
+		return nil, w.why == "no action"
+	}
+	for i, path := range w.paths {
+		var seq []int
+		for _, ev := range path.events {
+			switch ev.kind {
+			case "enter":
+				seq = append(seq, +1)
+			case "leave":
+				seq = append(seq, -1)
 			}
 		}
-		if len(guardsOf(c.P, call, cc)) != 0 {
-			ok = false
+		if i == 0 {
+			ops = seq
+			continue
 		}
-		return true
-	})
-	return
+		if len(seq) != len(ops) {
+			return ops, false
+		}
+		for j := range seq {
+			if seq[j] != ops[j] {
+				return ops, false
+			}
+		}
+	}
+	return ops, true
 }
 
 // deadGuarded reports whether node n of function f runs only while the gate is
@@ -389,7 +514,7 @@ func (c *Ctx) deadGuarded(g *gateInfo, f *core.Func, n ast.Node, depth int) bool
 			continue
 		}
 		if call, ok := ast.Unparen(gd.cond).(*ast.CallExpr); ok {
-			if fo := core.StaticCallee(info, call); fo != nil && c.P.FuncOf(fo) == g.dead {
+			if fo := core.StaticCallee(info, call); fo != nil && c.effective(c.P.FuncOf(fo)) == g.dead {
 				return true
 			}
 		}
@@ -475,6 +600,34 @@ func (c *Ctx) effects(g *gateInfo) []effect {
 			continue
 		}
 		scan(f, f.Info(), nil, f.OwnNodes)
+		// a constant table of operator functions the helper consults: what the functions
+		// do happens where the helper reads the table
+		fi := f.Info()
+		f.OwnNodes(func(n ast.Node) bool {
+			id, ok := n.(*ast.Ident)
+			if !ok {
+				return true
+			}
+			v, ok := fi.Uses[id].(*types.Var)
+			if !ok || v.Pkg() == nil || v.Parent() != v.Pkg().Scope() || !c.constantGlobal(v) {
+				return true
+			}
+			lit := c.globalLiteral("interp", v)
+			if lit == nil {
+				return true
+			}
+			traps := false
+			ast.Inspect(lit, func(x ast.Node) bool {
+				if be, ok := x.(*ast.BinaryExpr); ok && trapping(fi, be.Op, be.X, be.Y) {
+					traps = true
+				}
+				return !traps
+			})
+			if traps {
+				out = append(out, effect{"trap", f, id})
+			}
+			return true
+		})
 	}
 	gi := c.grammar("interp")
 	info := c.P.Pkgs["interp"].TypesInfo
@@ -515,63 +668,128 @@ func trapping(info *types.Info, op token.Token, x, y ast.Expr) bool {
 	return false
 }
 
-// decidingTest reports whether e, one conjunct of enter's argument, compares
-// the deciding operand's value with 0, and with which operator.  The value is
-// a member of yyVAL that this action assigns from expand(…, $1) where $1 is
-// the deciding operand, or that it copies from $1 when $1 is itself a marker
-// whose action did so.
-func (c *Ctx) decidingTest(g *gateInfo, marker *Production, e ast.Expr) (nonZero, ok bool) {
-	be, isBin := ast.Unparen(e).(*ast.BinaryExpr)
-	if !isBin || (be.Op != token.NEQ && be.Op != token.EQL) {
-		return false, false
-	}
-	if lit, isLit := ast.Unparen(be.Y).(*ast.BasicLit); !isLit || lit.Value != "0" {
-		return false, false
-	}
-	if !c.decidingValue(g, marker, exprStr(be.X), 0) {
-		return false, false
-	}
-	return be.Op == token.NEQ, true
+// decidingIn classifies the opaque values of a walk of marker production m:
+// the value of the deciding operand (the first result of expand applied to $1,
+// or a member of $1 that the marker $1 is reduced by has left holding it), and
+// the flag that says the operand was evaluated without a fault (the second
+// result, or a member holding that).
+type gateMembers struct {
+	deciding, okFlag map[string]bool // "member.field" of $$ on every path
 }
 
-func (c *Ctx) decidingValue(g *gateInfo, p *Production, x string, depth int) bool {
-	gi := c.grammar("interp")
-	cc := gi.Checked.Cases[p.N]
-	if cc == nil || depth > 4 || !strings.HasPrefix(x, "yyVAL.") {
-		return false
+func (c *Ctx) markerMembers(g *gateInfo, m *Production, depth int) *gateMembers {
+	key := fmt.Sprintf("markerMembers:%d", m.N)
+	if v, ok := c.cache[key]; ok {
+		return v.(*gateMembers)
 	}
-	info := c.P.Pkgs["interp"].TypesInfo
-	expand := c.fn("interp.expand")
-	found := false
-	ast.Inspect(cc, func(n ast.Node) bool {
-		as, ok := n.(*ast.AssignStmt)
-		if !ok || found {
-			return true
-		}
-		for i, l := range as.Lhs {
-			ls := exprStr(l)
-			switch {
-			case ls == x && len(as.Rhs) == 1:
-				// yyVAL.m.f, … = expand(yylex, yyDollar[1].m')
-				if call, isCall := ast.Unparen(as.Rhs[0]).(*ast.CallExpr); isCall && i == 0 && len(call.Args) == 2 {
-					if fo := core.StaticCallee(info, call); fo != nil && c.P.FuncOf(fo) == expand {
-						if k, _, isVal, isD := dollar(call.Args[1]); isD && !isVal && k == 1 && g.markers[p.RHS[0]] == nil {
-							found = true
-						}
+	out := &gateMembers{map[string]bool{}, map[string]bool{}}
+	c.cache[key] = out
+	if depth > 4 {
+		return out
+	}
+	w := c.gateWalk(g, m)
+	if w.why != "" || len(w.paths) == 0 || w.yyval == nil {
+		return out
+	}
+	isD, isOK := c.decidingPreds(g, m, depth)
+	first := true
+	for _, p := range w.paths {
+		d, k := map[string]bool{}, map[string]bool{}
+		var visit func(v sval, path string)
+		visit = func(v sval, path string) {
+			switch v.kind {
+			case svStruct:
+				for name, f := range v.fields {
+					np := name
+					if path != "" {
+						np = path + "." + name
 					}
+					visit(f, np)
 				}
-			case strings.HasPrefix(x, ls+".") && len(as.Lhs) == len(as.Rhs):
-				// yyVAL.m = yyDollar[1].m with $1 a marker that computed it
-				if k, _, isVal, isD := dollar(as.Rhs[i]); isD && !isVal && k == 1 {
-					if m := g.markers[p.RHS[0]]; m != nil && c.decidingValue(g, m, x, depth+1) {
-						found = true
-					}
+			case svOpaque:
+				if isD(v) {
+					d[path] = true
+				}
+				if isOK(v) {
+					k[path] = true
 				}
 			}
 		}
-		return true
-	})
-	return found
+		visit(p.env[w.yyval], "")
+		if first {
+			out.deciding, out.okFlag = d, k
+			first = false
+			continue
+		}
+		for name := range out.deciding {
+			if !d[name] {
+				delete(out.deciding, name)
+			}
+		}
+		for name := range out.okFlag {
+			if !k[name] {
+				delete(out.okFlag, name)
+			}
+		}
+	}
+	return out
+}
+
+// decidingPreds returns the two predicates for a walk of m.
+func (c *Ctx) decidingPreds(g *gateInfo, m *Production, depth int) (isD, isOK func(sval) bool) {
+	expand := c.effective(c.fn("interp.expand"))
+	var inherited *gateMembers
+	if len(m.RHS) > 0 {
+		if mm := g.markers[m.RHS[0]]; mm != nil {
+			inherited = c.markerMembers(g, mm, depth+1)
+		}
+	}
+	fromDollar1 := func(args []sval) bool {
+		found := false
+		var visit func(v sval)
+		visit = func(v sval) {
+			switch v.kind {
+			case svStruct:
+				for _, f := range v.fields {
+					visit(f)
+				}
+			case svOpaque:
+				if strings.HasPrefix(v.origin, "$1.") {
+					found = true
+				}
+			}
+		}
+		for _, a := range args {
+			visit(a)
+		}
+		return found
+	}
+	member := func(v sval) string {
+		// "$1.expr.n" -> "expr.n"
+		if v.kind == svOpaque && strings.HasPrefix(v.origin, "$1.") {
+			return strings.TrimPrefix(v.origin, "$1.")
+		}
+		return ""
+	}
+	isD = func(v sval) bool {
+		if v.kind != svOpaque {
+			return false
+		}
+		if v.fn != nil && expand != nil && v.fn == expand && v.idx == 0 && v.origin == "call" && inherited == nil {
+			return fromDollar1(v.elems)
+		}
+		return inherited != nil && inherited.deciding[member(v)]
+	}
+	isOK = func(v sval) bool {
+		if v.kind != svOpaque {
+			return false
+		}
+		if v.fn != nil && expand != nil && v.fn == expand && v.idx == 1 && v.origin == "call" && inherited == nil {
+			return fromDollar1(v.elems)
+		}
+		return inherited != nil && inherited.okFlag[member(v)]
+	}
+	return
 }
 
 // conjuncts flattens a && b && c.
@@ -590,44 +808,78 @@ func conjuncts(e ast.Expr) []ast.Expr {
 // the right polarity before the operand and closed after it.  It returns a
 // description or the reason it fails.
 func (c *Ctx) gatedOperand(g *gateInfo, o *lazyOperand) (string, error) {
-	gi := c.grammar("interp")
-	info := c.P.Pkgs["interp"].TypesInfo
 	if g.enter == nil || g.leave == nil || g.dead == nil {
 		return "", fmt.Errorf("the marker production `%s` precedes the operand, but no gate was recognised (a function appending to a slice field of the lexer called from it with a bool argument, one reslicing that field, and a predicate reading it)", o.marker)
 	}
-	mc := gi.Checked.Cases[o.marker.N]
-	ops, calls, uncond := c.gateCalls(g, mc)
-	if len(ops) == 0 || ops[len(ops)-1] != +1 {
-		return "", fmt.Errorf("the action of `%s`, reduced before the operand is parsed, does not end by opening the gate (%s)", o.marker, g.enter.Name)
+	w := c.gateWalk(g, o.marker)
+	if w.why != "" || len(w.paths) == 0 {
+		return "", fmt.Errorf("the action of `%s` could not be followed (%s)", o.marker, w.why)
 	}
-	if !uncond {
-		return "", fmt.Errorf("the action of `%s` opens the gate only conditionally", o.marker)
-	}
-	arg := calls[len(calls)-1].Args[0]
-	var pol *bool
-	for _, cj := range conjuncts(arg) {
-		if nz, ok := c.decidingTest(g, o.marker, cj); ok {
-			v := nz
-			pol = &v
+	isD, isOK := c.decidingPreds(g, o.marker, 0)
+	zero := constant.MakeInt64(0)
+	live := 0
+	for _, p := range w.paths {
+		gev := gateEvents(p)
+		if len(gev) == 0 || gev[len(gev)-1].kind != "enter" {
+			return "", fmt.Errorf("the action of `%s`, reduced before the operand is parsed, does not end by opening the gate (%s) on every path", o.marker, g.enter.Name)
 		}
-	}
-	switch {
-	case pol == nil:
-		return "", fmt.Errorf("the gate opened by `%s` is not a comparison of the deciding operand's value with 0: %s", o.marker, types.ExprString(arg))
-	case *pol != o.nonZero:
-		want, got := "!= 0", "== 0"
+		ev := gev[len(gev)-1]
+		if len(ev.args) != 1 {
+			return "", fmt.Errorf("the gate is opened by `%s` with %d arguments", o.marker, len(ev.args))
+		}
+		t, decided := boolOf(ev.args[0])
+		if !decided {
+			return "", fmt.Errorf("what `%s` opens the gate with is not a condition the walk can follow", o.marker)
+		}
+		// what this path knows about the deciding operand
+		knowsNonZero, knowsZero, notOK := false, false, false
+		for _, k := range p.cons {
+			switch {
+			case isD(k.v) && k.c.Kind() == constant.Int && constant.Compare(k.c, token.EQL, zero):
+				if k.truth {
+					knowsZero = true
+				} else {
+					knowsNonZero = true
+				}
+			case isOK(k.v) && k.c.Kind() == constant.Bool:
+				if constant.BoolVal(k.c) != k.truth {
+					notOK = true
+				}
+			}
+		}
+		want, other := knowsNonZero, knowsZero
 		if !o.nonZero {
-			want, got = got, want
+			want, other = knowsZero, knowsNonZero
 		}
-		return "", fmt.Errorf("`%s` opens the gate when the deciding operand is %s; C evaluates this operand of %s when it is %s", o.marker, got, o.op, want)
+		wantS, gotS := "!= 0", "== 0"
+		if !o.nonZero {
+			wantS, gotS = gotS, wantS
+		}
+		switch {
+		case t && other:
+			return "", fmt.Errorf("`%s` opens the gate when the deciding operand is %s; C evaluates this operand of %s when it is %s", o.marker, gotS, o.op, wantS)
+		case t && !want:
+			return "", fmt.Errorf("`%s` opens the gate on a path that has not compared the deciding operand's value with 0", o.marker)
+		case !t && !other && !notOK:
+			return "", fmt.Errorf("`%s` keeps the gate shut on a path where the deciding operand is not known to be %s", o.marker, gotS)
+		}
+		if t {
+			live++
+		}
 	}
-	hc := gi.Checked.Cases[o.holder.prod.N]
-	hops, _, huncond := c.gateCalls(g, hc)
-	if len(hops) == 0 || hops[0] != -1 || !huncond {
-		return "", fmt.Errorf("the action of `%s`, the first one to run after the operand, does not begin by closing the gate unconditionally (%s)", o.holder.prod, g.leave.Name)
+	if live == 0 {
+		return "", fmt.Errorf("`%s` never opens the gate", o.marker)
 	}
-	_ = info
-	return fmt.Sprintf("`%s` opens the gate iff $1 %s, `%s` closes it", o.marker, map[bool]string{true: "!= 0", false: "== 0"}[o.nonZero], o.holder.prod), nil
+	hw := c.gateWalk(g, o.holder.prod)
+	if hw.why != "" || len(hw.paths) == 0 {
+		return "", fmt.Errorf("the action of `%s` could not be followed (%s)", o.holder.prod, hw.why)
+	}
+	for _, p := range hw.paths {
+		if gev := gateEvents(p); len(gev) == 0 || gev[0].kind != "leave" {
+			return "", fmt.Errorf("the action of `%s`, the first one to run after the operand, does not begin by closing the gate on every path (%s)", o.holder.prod, g.leave.Name)
+		}
+	}
+	return fmt.Sprintf("`%s` opens the gate iff $1 %s (%d paths), `%s` closes it", o.marker, map[bool]string{true: "!= 0", false: "== 0"}[o.nonZero], len(w.paths), o.holder.prod), nil
 }
 
 // gateShape checks enter and dead themselves.
@@ -645,7 +897,7 @@ func (c *Ctx) gateShape(g *gateInfo, rr *core.RuleResult) {
 	mono := false
 	var appended ast.Expr
 	g.enter.OwnNodes(func(n ast.Node) bool {
-		if as, ok := n.(*ast.AssignStmt); ok && len(as.Lhs) == 1 && core.FieldOf(ei, as.Lhs[0]) == g.field {
+		if as, ok := n.(*ast.AssignStmt); ok && len(as.Lhs) == 1 && g.cell.is(ei, as.Lhs[0]) {
 			if call, ok := ast.Unparen(as.Rhs[0]).(*ast.CallExpr); ok && len(call.Args) == 2 {
 				appended = call.Args[1]
 			}
@@ -660,7 +912,7 @@ func (c *Ctx) gateShape(g *gateInfo, rr *core.RuleResult) {
 			}
 			if u, ok := cj.(*ast.UnaryExpr); ok && u.Op == token.NOT {
 				if call, ok := ast.Unparen(u.X).(*ast.CallExpr); ok {
-					if fo := core.StaticCallee(ei, call); fo != nil && c.P.FuncOf(fo) == g.dead {
+					if fo := core.StaticCallee(ei, call); fo != nil && c.effective(c.P.FuncOf(fo)) == g.dead {
 						hasDead = true
 					}
 				}
@@ -685,11 +937,11 @@ func (c *Ctx) gateShape(g *gateInfo, rr *core.RuleResult) {
 		top, nonEmpty := false, false
 		for _, cj := range conjuncts(ret.Results[0]) {
 			if u, ok := cj.(*ast.UnaryExpr); ok && u.Op == token.NOT {
-				if ix, ok := ast.Unparen(u.X).(*ast.IndexExpr); ok && core.FieldOf(di, ix.X) == g.field && isLenMinus1(di, ix.Index, g.field) {
+				if ix, ok := ast.Unparen(u.X).(*ast.IndexExpr); ok && g.cell.is(di, ix.X) && isLenMinus1(di, ix.Index, g.cell) {
 					top = true
 				}
 			}
-			if be, ok := cj.(*ast.BinaryExpr); ok && isLenOf(di, be.X, g.field) {
+			if be, ok := cj.(*ast.BinaryExpr); ok && isLenOf(di, be.X, g.cell) {
 				if v, isInt := evalInt(be.Y); isInt && ((be.Op == token.NEQ && v == 0) || (be.Op == token.GTR && v == 0) || (be.Op == token.GEQ && v == 1)) {
 					nonEmpty = true
 				}
@@ -718,17 +970,19 @@ func (c *Ctx) gateShape(g *gateInfo, rr *core.RuleResult) {
 			switch n := n.(type) {
 			case *ast.AssignStmt:
 				for _, l := range n.Lhs {
-					if core.FieldOf(fi, l) == g.field && f != g.enter && f != g.leave {
+					if g.cell.is(fi, l) && f != g.enter && f != g.leave {
 						bad = append(bad, fmt.Sprintf("%s assigns the gate", f.Name))
 					}
 				}
 			case *ast.UnaryExpr:
-				if n.Op == token.AND && core.FieldOf(fi, n.X) == g.field {
+				if n.Op == token.AND && g.cell.field != nil && g.cell.is(fi, n.X) {
 					bad = append(bad, fmt.Sprintf("%s takes the gate's address", f.Name))
 				}
 			case *ast.CallExpr:
 				if fo := core.StaticCallee(fi, n); fo != nil {
-					if h := c.P.FuncOf(fo); h != nil && (h == g.enter || h == g.leave) && !f.Generated {
+					// wrappers may call the function they hand over to, and so may a helper of the
+					// actions that nothing but actions (or such helpers) calls: the walk follows it
+					if h := c.effective(c.P.FuncOf(fo)); h != nil && (h == g.enter || h == g.leave) && !f.Generated && c.effective(f) != h && !c.onlyBelowActions(g, f.Root(), 0) {
 						bad = append(bad, fmt.Sprintf("%s calls %s outside a reduce action", f.Name, h.Name))
 					}
 				}
@@ -742,23 +996,23 @@ func (c *Ctx) gateShape(g *gateInfo, rr *core.RuleResult) {
 		}
 	}
 	if len(bad) == 0 {
-		rr.OKp(c.P, key, g.enter.Pos(), "closed-world", fmt.Sprintf("%s and %s are the only writers of the lexer's %s and are called from reduce actions only", g.enter.Name, g.leave.Name, g.field.Name()))
+		rr.OKp(c.P, key, g.enter.Pos(), "closed-world", fmt.Sprintf("%s and %s are the only writers of the lexer's %s and are called from reduce actions only", g.enter.Name, g.leave.Name, g.cell.name()))
 	} else {
 		sort.Strings(bad)
 		rr.Badp(c.P, key, g.enter.Pos(), strings.Join(bad, "; "))
 	}
 }
 
-func isLenOf(info *types.Info, e ast.Expr, fld *types.Var) bool {
+func isLenOf(info *types.Info, e ast.Expr, fld gateCell) bool {
 	call, ok := ast.Unparen(e).(*ast.CallExpr)
 	if !ok || len(call.Args) != 1 {
 		return false
 	}
 	id, ok := call.Fun.(*ast.Ident)
-	return ok && id.Name == "len" && core.FieldOf(info, call.Args[0]) == fld
+	return ok && id.Name == "len" && fld.is(info, call.Args[0])
 }
 
-func isLenMinus1(info *types.Info, e ast.Expr, fld *types.Var) bool {
+func isLenMinus1(info *types.Info, e ast.Expr, fld gateCell) bool {
 	be, ok := ast.Unparen(e).(*ast.BinaryExpr)
 	if !ok || be.Op != token.SUB || !isLenOf(info, be.X, fld) {
 		return false
@@ -852,7 +1106,7 @@ func ruleAR6() Rule {
 						continue
 					}
 					if cc := gi.Checked.Cases[p.N]; cc != nil {
-						ops, _, uncond := c.gateCalls(g, cc)
+						ops, uncond := c.gateCalls(g, p)
 						if !uncond {
 							bad = append(bad, fmt.Sprintf("`%s` opens or closes the gate conditionally", p))
 						}
@@ -999,6 +1253,44 @@ func ruleRV1() Rule {
 					rr.Badp(c.P, key, gi.AstFile.Pos(), "the production has no action: $$ is $1, name included")
 					continue
 				}
+				// follow the action (helpers that open or close the gate inlined): on every path the
+				// name member of the final $$ is the empty string, or comes out of a helper whose
+				// results never carry a name
+				if w := c.gateWalk(g, p); w.why == "" && len(w.paths) > 0 && w.yyval != nil {
+					verdict := ""
+					for _, path := range w.paths {
+						v := path.env[w.yyval]
+						if v.kind != svStruct {
+							verdict = "?"
+							break
+						}
+						mv, ok := v.fields[member]
+						if !ok || mv.kind != svStruct {
+							verdict = "?"
+							break
+						}
+						nv := mv.fields[fld]
+						switch {
+						case nv.kind == svConst && nv.c.Kind() == constant.String && constant.StringVal(nv.c) == "":
+						case nv.kind == svOpaque && nv.fn != nil && strings.HasPrefix(nv.origin, "call") && clean(nv.fn, fld):
+						case nv.kind == svOpaque && strings.HasPrefix(nv.origin, "$"):
+							verdict = fmt.Sprintf("on some path $$.%s is still %s: the result keeps the name of an operand and can be assigned to", fld, nv.origin)
+						default:
+							if verdict == "" {
+								verdict = "?"
+							}
+						}
+					}
+					if verdict == "" {
+						rr.OKp(c.P, key, cc.Pos(), "cleared", fmt.Sprintf("on each of the %d paths through the action the name member of $$ ends up empty", len(w.paths)))
+						continue
+					}
+					if verdict != "?" {
+						rr.Badp(c.P, key, cc.Pos(), verdict)
+						continue
+					}
+					// not decided by the walk: the syntactic rule below
+				}
 				var clear token.Pos
 				var taints []token.Pos
 				ast.Inspect(cc, func(n ast.Node) bool {
@@ -1058,4 +1350,41 @@ func ruleRV1() Rule {
 				}
 			}
 		}}
+}
+
+// gateReslice reports whether n, a slice expression in f, is the pop of the
+// gate in the function AR6 balances: PF1 takes its bound from that rule.
+func (c *Ctx) gateReslice(f *core.Func, n ast.Node) bool {
+	se, ok := n.(*ast.SliceExpr)
+	if !ok || f == nil || f.Pkg.Name != "interp" {
+		return false
+	}
+	g := c.gate()
+	if g.err != "" || g.leave == nil || g.enter == nil || g.leave != f.Root() {
+		return false
+	}
+	return g.cell.is(f.Info(), se.X) && se.Low == nil && se.High != nil
+}
+
+// onlyBelowActions reports whether every call of f is made from a reduce
+// action or from a function of which the same holds.
+func (c *Ctx) onlyBelowActions(g *gateInfo, f *core.Func, depth int) bool {
+	if f == nil || depth > 3 || !g.regionSet[f] || c.P.CG().AddrTaken[f] {
+		return false
+	}
+	sites := 0
+	for _, h := range c.funcsOfPkg("interp", true) {
+		n := len(c.callsTo(h, f))
+		if n == 0 {
+			continue
+		}
+		sites += n
+		if h.Generated {
+			continue
+		}
+		if !c.onlyBelowActions(g, h.Root(), depth+1) {
+			return false
+		}
+	}
+	return sites > 0
 }
